@@ -123,3 +123,71 @@ def hostile_cbor():
             out.append(b"\xa1\x61\x6e" + tag + bstr(n))
             out.append(b"\xa2\x01\x02\x20" + tag + bstr(n))
     return out
+
+
+
+def encode_styled(v, style="canonical", _top=True):
+    """CBOR encodings of the same value that differ from the canonical one only in FORM (RFC 8949 allows them all; a decoder reads the same value):
+    'reordered' (map entries in reverse order), 'indefinite-map' / 'indefinite-array' (bf..ff / 9f..ff), 'nonminimal' (every length and integer in a wider
+    argument than needed), 'indefinite-strings' (byte / text strings as chunk sequences), 'tagged' (self-described CBOR tag 55799 in front)."""
+    import struct as _st
+
+    def head(major, n, wide=False):
+        if wide or style == "nonminimal":
+            if n < 256 and not wide:
+                return bytes([major << 5 | 24, n]) if n >= 24 or True else b""
+            if n < 65536:
+                return bytes([major << 5 | 25]) + _st.pack(">H", n)
+            if n < 2 ** 32:
+                return bytes([major << 5 | 26]) + _st.pack(">I", n)
+            return bytes([major << 5 | 27]) + _st.pack(">Q", n)
+        if n < 24:
+            return bytes([major << 5 | n])
+        if n < 256:
+            return bytes([major << 5 | 24, n])
+        if n < 65536:
+            return bytes([major << 5 | 25]) + _st.pack(">H", n)
+        if n < 2 ** 32:
+            return bytes([major << 5 | 26]) + _st.pack(">I", n)
+        return bytes([major << 5 | 27]) + _st.pack(">Q", n)
+
+    def enc(x, top=False):
+        if isinstance(x, bool):
+            return b"\xf5" if x else b"\xf4"
+        if x is None:
+            return b"\xf6"
+        if isinstance(x, int):
+            return head(0, x) if x >= 0 else head(1, -1 - x)
+        if isinstance(x, (bytes, bytearray)):
+            x = bytes(x)
+            if style == "indefinite-strings" and len(x) > 1:
+                h = len(x) // 2
+                return b"\x5f" + head(2, h) + x[:h] + head(2, len(x) - h) + x[h:] + b"\xff"
+            return head(2, len(x)) + x
+        if isinstance(x, str):
+            u = x.encode("utf-8")
+            if style == "indefinite-strings" and x.isascii() and len(u) > 1:
+                h = len(u) // 2
+                return b"\x7f" + head(3, h) + u[:h] + head(3, len(u) - h) + u[h:] + b"\xff"
+            return head(3, len(u)) + u
+        if isinstance(x, (list, tuple)):
+            body = b"".join(enc(y) for y in x)
+            if style == "indefinite-array":
+                return b"\x9f" + body + b"\xff"
+            return head(4, len(x)) + body
+        if isinstance(x, dict):
+            items = list(x.items())
+            if style == "reordered":
+                items = items[::-1]
+            body = b"".join(enc(k) + enc(val) for k, val in items)
+            if style == "indefinite-map":
+                return b"\xbf" + body + b"\xff"
+            return head(5, len(items)) + body
+        return cbor2.dumps(x)
+    out = enc(v, True)
+    if style == "tagged":
+        out = b"\xd9\xd9\xf7" + out
+    return out
+
+
+AO_STYLES = ["canonical", "reordered", "indefinite-map", "nonminimal", "indefinite-strings", "indefinite-array"]
